@@ -1,6 +1,6 @@
 (* C13 — rate change.  Property theorems only. *)
 From Coq Require Import ZArith QArith Qround List Bool.
-From RV Require Import Base.PyNum Frame.Frame Map.Stacker Map.StackerSpec Map.Rate Proofs.RateProofs.
+From RV Require Import Base.PyNum Frame.Frame Map.Stacker Map.StackerSpec Map.Rate Map.RateFile Proofs.RateProofs.
 Import ListNotations.
 Open Scope Q_scope.
 
@@ -29,6 +29,61 @@ Theorem C13_rate_compose : forall a b ls, ~ a == 0 -> ~ b == 0 ->
   ulists_eqb (rate_spec b (rate_spec a ls)) (rate_spec (a * b) ls) = true.
 Proof. exact rate_compose. Qed.
 
+(* ---------------------------------------------------------------------------------------------------------------
+   File-level fields (Map/RateFile.v: osu_rate = OsuMap.rate, sm_mapset_rate = SMMapSet.rate, mapset_rate = MapSet.rate)
+   --------------------------------------------------------------------------------------------------------------- *)
+
+(* OsuMap.rate: the timed lists are scaled (C13_rate_scales), every sample event's time is divided by r with its file and
+   volume unchanged, the preview value is divided by r, every other attribute is unchanged *)
+Theorem C13_osu_file_fields_scale : forall r f, wf_osu_file f = true ->
+  of_lists (osu_rate r f) = rate_spec r (of_lists f) /\
+  of_samples (osu_rate r f) = scale_ulist r (of_samples f) /\
+  of_preview (osu_rate r f) == of_preview f / r /\
+  of_meta (osu_rate r f) = of_meta f.
+Proof. exact osu_file_fields_scale. Qed.
+Theorem C13_osu_file_rate_one : forall f, wf_osu_file f = true -> osu_file_eqb (osu_rate 1 f) f = true.
+Proof. exact osu_file_rate_one. Qed.
+Theorem C13_osu_file_rate_compose : forall a b f, wf_osu_file f = true -> ~ a == 0 -> ~ b == 0 ->
+  osu_file_eqb (osu_rate b (osu_rate a f)) (osu_rate (a * b) f) = true.
+Proof. exact osu_file_rate_compose. Qed.
+
+(* osu's PreviewTime -1 means "no preview point".  The code divides it like a time: -1 becomes -1/r (written as
+   "PreviewTime: 0" for r > 1, replayed on the real code).  Under the reading "a chart without a preview point has none
+   after the rate change" the statement is refuted; it holds for every chart whose preview point is at a time >= 0, and
+   at rate 1 for every chart. *)
+Theorem C13_osu_preview_unset_kept_refuted :
+  exists f r, wf_osu_file f = true /\ 0 < r /\ preview_point (of_preview f) = None /\
+              of_preview (osu_rate r f) = (-1 # 2) /\ preview_point (of_preview (osu_rate r f)) = Some (-1 # 2) /\
+              preview_scaled_strict r (of_preview f) (of_preview (osu_rate r f)) = false.
+Proof. exact osu_preview_unset_kept_refuted. Qed.
+Theorem C13_osu_preview_point_scales : forall r f, 0 < r -> 0 <= of_preview f ->
+  preview_scaled_strict r (of_preview f) (of_preview (osu_rate r f)) = true.
+Proof. exact osu_preview_point_scales. Qed.
+Theorem C13_osu_preview_rate_one : forall f, preview_scaled_strict 1 (of_preview f) (of_preview (osu_rate 1 f)) = true.
+Proof. exact osu_preview_rate_one. Qed.
+
+(* SMMapSet.rate: every chart scaled, #OFFSET (when set), sample start and sample length divided by r, the rest unchanged *)
+Theorem C13_sm_file_fields_scale : forall r f, wf_sm_file f = true ->
+  sf_charts (sm_mapset_rate r f) = map (rate_spec r) (sf_charts f) /\
+  match sf_offset f, sf_offset (sm_mapset_rate r f) with
+  | Some o, Some o' => o' == o / r | None, None => True | _, _ => False end /\
+  sf_sample_start (sm_mapset_rate r f) == sf_sample_start f / r /\
+  sf_sample_length (sm_mapset_rate r f) == sf_sample_length f / r /\
+  sf_meta (sm_mapset_rate r f) = sf_meta f.
+Proof. exact sm_file_fields_scale. Qed.
+Theorem C13_sm_file_rate_one : forall f, wf_sm_file f = true -> sm_file_eqb (sm_mapset_rate 1 f) f = true.
+Proof. exact sm_file_rate_one. Qed.
+Theorem C13_sm_file_rate_compose : forall a b f, wf_sm_file f = true -> ~ a == 0 -> ~ b == 0 ->
+  sm_file_eqb (sm_mapset_rate b (sm_mapset_rate a f)) (sm_mapset_rate (a * b) f) = true.
+Proof. exact sm_file_rate_compose. Qed.
+
+(* MapSet.rate (every game): as many charts, chart k of the result is chart k rated on its own, i.e. scaled *)
+Theorem C13_mapset_rate_each_chart : forall r cs, forallb (forallb wf_ulist) cs = true ->
+  length (mapset_rate r cs) = length cs /\
+  (forall k, nth_error (mapset_rate r cs) k = option_map (rate_lists r) (nth_error cs k)) /\
+  (forall k c, nth_error cs k = Some c -> nth_error (mapset_rate r cs) k = Some (rate_spec r c)).
+Proof. exact mapset_rate_each_chart. Qed.
+
 Example C13_example :
   let hits := mkUlist [0; 1]%Z [[CNum 1000; CNum 1]; [CNum 3000; CNum 2]] in
   let holds := mkUlist [0; 1; 2]%Z [[CNum 2000; CNum 0; CNum 500]] in
@@ -38,4 +93,29 @@ Example C13_example :
   = [mkUlist [0; 1]%Z [[CNum 500; CNum 1]; [CNum 1500; CNum 2]];
      mkUlist [0; 1; 2]%Z [[CNum 1000; CNum 0; CNum 250]];
      mkUlist [0; 3; 4]%Z [[CNum 0; CNum 240; CNum 4]]].
+Proof. vm_compute. split; reflexivity. Qed.
+
+(* non-vacuity, file level: an osu chart with two sample events and a preview point; an SM mapset with two charts and a
+   non-zero offset *)
+Example C13_example_osu_file :
+  let f := mkOsuFile [mkUlist [0; 1]%Z [[CNum 1000; CNum 1]; [CNum 3000; CNum 2]];
+                      mkUlist [0; 3; 4]%Z [[CNum 0; CNum 120; CNum 4]]]
+                     (mkUlist [0; 1001; 1002]%Z [[CNum 500; CStr 7; CNum 70]; [CNum 2500; CStr 7; CNum 60]])
+                     12345 [CStr 1; CNum 500] in
+  wf_osu_file f = true /\
+  osu_rate 2 f = mkOsuFile [mkUlist [0; 1]%Z [[CNum 500; CNum 1]; [CNum 1500; CNum 2]];
+                            mkUlist [0; 3; 4]%Z [[CNum 0; CNum 240; CNum 4]]]
+                           (mkUlist [0; 1001; 1002]%Z [[CNum 250; CStr 7; CNum 70]; [CNum 1250; CStr 7; CNum 60]])
+                           (12345 # 2) [CStr 1; CNum 500] /\
+  preview_scaled_strict 2 (of_preview f) (of_preview (osu_rate 2 f)) = true.
+Proof. vm_compute. repeat split; reflexivity. Qed.
+Example C13_example_sm_file :
+  let c1 := [mkUlist [0; 1]%Z [[CNum 1000; CNum 0]]; mkUlist [0; 3; 4]%Z [[CNum 500; CNum 120; CNum 4]]] in
+  let c2 := [mkUlist [0; 1; 2]%Z [[CNum 2000; CNum 3; CNum 750]]; mkUlist [0; 3; 4]%Z [[CNum 500; CNum 120; CNum 4]]] in
+  let f := mkSmFile [c1; c2] (Some 500) 10000 5000 [CStr 1; CBool false] in
+  wf_sm_file f = true /\
+  sm_mapset_rate 2 f
+  = mkSmFile [[mkUlist [0; 1]%Z [[CNum 500; CNum 0]]; mkUlist [0; 3; 4]%Z [[CNum 250; CNum 240; CNum 4]]];
+              [mkUlist [0; 1; 2]%Z [[CNum 1000; CNum 3; CNum 375]]; mkUlist [0; 3; 4]%Z [[CNum 250; CNum 240; CNum 4]]]]
+             (Some 250) 5000 2500 [CStr 1; CBool false].
 Proof. vm_compute. split; reflexivity. Qed.
